@@ -457,8 +457,12 @@ impl<'tcx> Cx<'tcx> {
     }
 
     fn body(&self, did: LocalDefId) -> J {
+        let body: &Body<'tcx> = self.tcx.optimized_mir(did.to_def_id());
+        self.body_of(did, body)
+    }
+
+    fn body_of(&self, did: LocalDefId, body: &Body<'tcx>) -> J {
         let tcx = self.tcx;
-        let body: &Body<'tcx> = tcx.optimized_mir(did.to_def_id());
         let mut locals = Vec::new();
         for (_l, d) in body.local_decls.iter_enumerated() {
             locals.push(J::obj(vec![
@@ -645,7 +649,28 @@ impl rustc_driver::Callbacks for Cb {
         for did in tcx.hir_body_owners() {
             let dk = tcx.def_kind(did);
             let is_fn = matches!(dk, DefKind::Fn | DefKind::AssocFn | DefKind::Closure);
-            if !is_fn {
+            let is_const = matches!(dk, DefKind::Const { .. } | DefKind::AssocConst { .. });
+            if !is_fn && !is_const {
+                continue;
+            }
+            if is_const {
+                // constant initialisers (e.g. the generated `short::*` op constants)
+                let generics = tcx.generics_of(did);
+                if generics.count() != 0 || generics.parent_count != 0 {
+                    continue;
+                }
+                let span = tcx.def_span(did);
+                let f: Vec<(&str, J)> = vec![
+                    ("path", jstr(full_path(tcx, did.to_def_id()))),
+                    ("kind", jstr("Const")),
+                    ("span", cx.span(tcx.hir_span_with_body(tcx.local_def_id_to_hir_id(did)))),
+                    ("exp", J::Bool(span.from_expansion())),
+                    ("vis", jstr(format!("{:?}", tcx.visibility(did)))),
+                    ("unsafe_code_level", jstr("n/a")),
+                    ("unsafe_blocks", J::Arr(vec![])),
+                    ("mir", cx.body_of(did, tcx.mir_for_ctfe(did.to_def_id()))),
+                ];
+                fns.push(J::obj(f));
                 continue;
             }
             let path = full_path(tcx, did.to_def_id());
